@@ -70,6 +70,17 @@ class FakeResponse(io.BytesIO):
         return super().read(*a)
 
 
+_TRANSPORT = None
+
+
+def current_op():
+    """the op in flight in the calling (simulated or main) thread"""
+    tr = _TRANSPORT
+    if tr is None:
+        return None
+    return tr._cur()[1]
+
+
 class Transport:
     """The only network the code under test sees.
 
@@ -88,6 +99,8 @@ class Transport:
         self.cur_op_fallback = None   # op in flight when no simulated thread exists
 
     def install(self):
+        global _TRANSPORT
+        _TRANSPORT = self
         tr = self
 
         def _open(opener, request, data=None, timeout=None):
@@ -217,7 +230,43 @@ def make_adapter_classes():
         def mk_descr(self):
             return f"drop {self.tag}"
 
+    class FailingAdapter(RA):
+        """a user's adapter that raises when the op in flight says so: before the request is sent
+        (process_req_args) or while the response is processed (process_response)"""
+
+        def __init__(self, name="X-Fail-Ad", value="1"):
+            self.name = name
+            self.value = value
+
+        def process_req_args(self, req_args):
+            req_args.headers[self.name] = self.value       # it also does something useful
+            op = current_op()
+            if op is not None and op.get("adfail") == "pre":
+                raise RuntimeError("injected: adapter failed before the request was sent")
+
+        def process_response(self, return_value):
+            op = current_op()
+            if op is not None and op.get("adfail") == "post":
+                raise RuntimeError("injected: adapter failed while processing the response")
+            return return_value
+
+        def mk_descr(self):
+            return "failing"
+
+    class NestedCaller(RA):
+        """a user's adapter that issues a request of its own (e.g. fetches a token) through another
+        connection over the same underlying connection, from inside process_req_args"""
+
+        def __init__(self, inner, path="/nested"):
+            self.inner = inner
+            self.path = path
+
+        def process_req_args(self, req_args):
+            self.inner.get(self.path)
+
     HeaderAdder.DropBody = DropBody
+    HeaderAdder.FailingAdapter = FailingAdapter
+    HeaderAdder.NestedCaller = NestedCaller
     return HeaderAdder, RespWrapper
 
 
@@ -238,6 +287,8 @@ def make_adapter(spec, classes):
         return conn_http.RequestAdapterAddPathPrefix(spec["prefix"])
     if k == "drop":
         return HeaderAdder.DropBody(spec["tag"])
+    if k == "fail":
+        return HeaderAdder.FailingAdapter(spec.get("name", "X-Fail-Ad"), spec.get("value", "1"))
     if k == "auth":
         kind = spec["kind"]
         if kind == "bauth":
